@@ -200,7 +200,9 @@ impl GitVcs {
     }
 
     fn calculate_distance(&self, tag: &str) -> Result<u32> {
-        let output = self.run_git_command(&["rev-list", "--count", &format!("{tag}..HEAD")])?;
+        // "--": the range is a revision even if the work tree has a file of that name
+        let output =
+            self.run_git_command(&["rev-list", "--count", &format!("{tag}..HEAD"), "--"])?;
         output
             .parse::<u32>()
             .map_err(|e| ZervError::CommandFailed(format!("Failed to parse distance: {e}")))
